@@ -63,7 +63,13 @@ func getChildName(path []string, node unserialized, sn schema.Node) (string, err
 			}
 			found = true
 
-			vals, _ := ch.values()
+			vals, err := ch.values()
+			if err != nil {
+				return "", err
+			}
+			if len(vals) != 1 {
+				return "", schema.NewMissingKeyError([]string{key})
+			}
 			name = vals[0]
 
 			// Validate the value of the key
